@@ -27,6 +27,7 @@ type c20Op struct {
 	ts       int64  // T: the time stamp handed to AnySource.SetExperimentStateLabel
 	req      string
 	l22      bool
+	off, l3  bool
 	label    string
 	nsamples int
 	first    int64
@@ -35,18 +36,28 @@ type c20Op struct {
 }
 
 type c20Case struct {
-	idx int
-	nch int
-	ops []c20Op
+	idx  int
+	nch  int
+	proj []bool // channels with projectors (only those get an OFF writer)
+	ops  []c20Op
 }
 
 func (c *c20Case) input() string {
 	var sb strings.Builder
-	fmt.Fprintf(&sb, "nch %d ops %d", c.nch, len(c.ops))
+	fmt.Fprintf(&sb, "nch %d proj", c.nch)
+	anyProj := false
+	for ch := 0; ch < c.nch; ch++ {
+		p := ch < len(c.proj) && c.proj[ch]
+		anyProj = anyProj || p
+		fmt.Fprintf(&sb, " %d", b2i(p))
+	}
+	fmt.Fprintf(&sb, " ops %d", len(c.ops))
 	for _, op := range c.ops {
 		switch op.kind {
 		case "Q":
-			fmt.Fprintf(&sb, " Q %s %d", hexs([]byte(op.req)), b2i(op.l22))
+			// valid: a START with these file types can be carried out (some type; OFF only with projectors on some channel)
+			valid := (op.l22 || op.l3 || op.off) && (!op.off || anyProj)
+			fmt.Fprintf(&sb, " Q %s %d %d %d %d", hexs([]byte(op.req)), b2i(valid), b2i(op.l22), b2i(op.off), b2i(op.l3))
 		case "L":
 			fmt.Fprintf(&sb, " L %s", hexs([]byte(op.label)))
 		case "T":
@@ -153,6 +164,13 @@ func (c *c20Case) run() string {
 	if err := vs.VerifPrepare(3, 8); err != nil {
 		return "PANIC prepare-error"
 	}
+	for ch, p := range c.proj {
+		if p && ch < c.nch {
+			if err := vs.VerifC06LoadProjectors(ch, c06NBases); err != nil {
+				return "PANIC projectors-error"
+			}
+		}
+	}
 	sc := dastard.VerifNewSourceControl(vs, 3, 8)
 	var sb strings.Builder
 	fmt.Fprintf(&sb, "%d", len(c.ops))
@@ -163,7 +181,8 @@ func (c *c20Case) run() string {
 		switch op.kind {
 		case "Q":
 			before := vs.ComputeWritingState()
-			cfg := dastard.WriteControlConfig{Request: op.req, WriteLJH22: op.l22, Path: filepath.Join(root, "p0")}
+			cfg := dastard.WriteControlConfig{Request: op.req, WriteLJH22: op.l22, WriteOFF: op.off, WriteLJH3: op.l3,
+				Path: filepath.Join(root, "p0")}
 			var reply bool
 			err := callRPC(sc, func() error { return sc.WriteControl(&cfg, &reply) })
 			fmt.Fprintf(&sb, " E %d", b2i(err != nil))
@@ -247,7 +266,51 @@ func genC20(r *Rng, tier string, idx int) *c20Case {
 			{kind: "Q", req: "UNPAUSE %d items %s"}, {kind: "T", label: "%%", ts: c20Past + 1}, {kind: "L", label: "C:\\tmp\\new \"q\""},
 			{kind: "L", label: "tab\there"}, {kind: "Q", req: "unpause \u00b5K %"}, {kind: "Q", req: "STOP"}}}
 	}
-	c := &c20Case{idx: idx, nch: r.Pick(1, 1, 2, 3)}
+	if idx == 3 { // scripted: OFF-only writing with projectors NOT on channel 0; a second START while active must be refused
+		return &c20Case{idx: idx, nch: 3, proj: []bool{false, false, true}, ops: []c20Op{
+			{kind: "Q", req: "START", off: true}, {kind: "L", label: "A"}, {kind: "B", nsamples: 8, first: 100, ext: []int64{1, 2}},
+			{kind: "Q", req: "START", off: true}, {kind: "L", label: "B"}, {kind: "B", nsamples: 8, first: 108, dropped: 4, ext: []int64{3}},
+			{kind: "Q", req: "START", l22: true}, {kind: "Q", req: "STOP"}, {kind: "Q", req: "START", off: true, l3: true},
+			{kind: "B", nsamples: 8, first: 120, ext: []int64{4}}, {kind: "Q", req: "STOP"}}}
+	}
+	c := &c20Case{idx: idx, nch: r.Pick(1, 1, 2, 3, 4)}
+	// projectors over all subsets of the channels: none, all, only the last, all but channel 0, random
+	c.proj = make([]bool, c.nch)
+	switch r.Intn(6) {
+	case 0: // none
+	case 1:
+		for i := range c.proj {
+			c.proj[i] = true
+		}
+	case 2:
+		c.proj[c.nch-1] = true
+	case 3:
+		for i := 1; i < c.nch; i++ {
+			c.proj[i] = true
+		}
+	default:
+		for i := range c.proj {
+			c.proj[i] = r.Bool()
+		}
+	}
+	// the file types of this case's STARTs
+	startTypes := func() (bool, bool, bool) {
+		switch r.Intn(10) {
+		case 0, 1, 2, 3:
+			return true, false, false
+		case 4, 5, 6:
+			return false, true, false // OFF only
+		case 7:
+			return false, false, true
+		default:
+			m := r.Range(1, 7)
+			return m&1 != 0, m&2 != 0, m&4 != 0
+		}
+	}
+	anyProj := false
+	for _, p := range c.proj {
+		anyProj = anyProj || p
+	}
 	lastTs := c20Past + int64(r.Intn(1000))
 	nops := r.Range(1, 60)
 	if r.Chance(25) {
@@ -339,7 +402,7 @@ func genC20(r *Rng, tier string, idx int) *c20Case {
 			var word string
 			if !illegal {
 				if active {
-					word = []string{"STOP", "STOP", "PAUSE", "UNPAUSE"}[r.Intn(4)]
+					word = []string{"STOP", "STOP", "PAUSE", "UNPAUSE", "START"}[r.Intn(5)] // START while active: must be refused
 				} else {
 					word = "START"
 				}
@@ -348,8 +411,11 @@ func genC20(r *Rng, tier string, idx int) *c20Case {
 			}
 			switch word {
 			case "START":
-				c.ops = append(c.ops, c20Op{kind: "Q", req: c06ReqString(r, "START"), l22: true})
-				active = true
+				a, b, d := startTypes()
+				c.ops = append(c.ops, c20Op{kind: "Q", req: c06ReqString(r, "START"), l22: a, off: b, l3: d})
+				if (a || b || d) && (!b || anyProj) {
+					active = true
+				}
 			case "START0": // no file type selected: refused
 				c.ops = append(c.ops, c20Op{kind: "Q", req: "START", l22: false})
 			case "STOP":
